@@ -18,22 +18,26 @@ FAMILIES = ["id", "elementwise", "reduce", "dot", "get_at", "update_at", "argfin
 def plan(tier):
     """(module path, per-condition timeout, bug_finding_only)"""
     mods = []
+    sys.path.insert(0, "/verif/xh")
+    import c12_lib as L
+
+    NCH, NCH12 = len(L.CHUNKS), len(L.CH12)
     if tier == "quick":
         mods.append((xgen.parser_module("c12_total_k3", "TOK13", 13, 3, "total"), 120, False))
         mods.append((xgen.parser_module("c12_total_k4", "TOK9", 9, 4, "total"), 400, False))
-        mods.append((xgen.parser_module("c12_reprint_k2", "CHUNKS", 17, 2, "reprint", fixed=0), 200, False))
-        mods.append((xgen.parser_module("c12_reprint_k3", "CH12", 12, 3, "reprint"), 200, False))
-        mods.append((xgen.parser_module("c12_spacing_k2", "CHUNKS", 17, 2, "spacing", fixed=0), 300, False))
+        mods.append((xgen.parser_module("c12_reprint_k2", "CHUNKS", NCH, 2, "reprint", fixed=0), 200, False))
+        mods.append((xgen.parser_module("c12_reprint_k3", "CH12", NCH12, 3, "reprint"), 200, False))
+        mods.append((xgen.parser_module("c12_spacing_k2", "CHUNKS", NCH, 2, "spacing", fixed=0), 300, False))
         mods.append((xgen.parser_module("c12_spacing_k3", "SP8", 8, 3, "spacing"), 400, False))
         mods.append((xgen.corpus_spacing_module("c12_corpus_spacing", 40, step=5, maxgap=12), 300, False))
-        mods.append((xgen.parser_module("c12_entry_k2", "CHUNKS", 17, 2, "entry", fixed=0, families=FAMILIES), 300, False))
+        mods.append((xgen.parser_module("c12_entry_k2", "CHUNKS", NCH, 2, "entry", fixed=0, families=FAMILIES), 300, False))
         mods.append((xgen.h1_module("c12_h1", 3), 60, True))
     else:
         mods.append((xgen.parser_module("c12_total_k4", "TOK17", 17, 4, "total"), 3000, False))
         mods.append((xgen.parser_module("c12_total_k5", "TOK12", 12, 5, "total", fixed=2), 3000, False))
-        mods.append((xgen.parser_module("c12_reprint_k4", "CHUNKS", 17, 4, "reprint", fixed=2), 3000, False))
-        mods.append((xgen.parser_module("c12_spacing_k3", "CHUNKS", 17, 3, "spacing"), 3000, False))
-        mods.append((xgen.parser_module("c12_entry_k3", "CHUNKS", 17, 3, "entry", fixed=1, families=FAMILIES), 3000, False))
+        mods.append((xgen.parser_module("c12_reprint_k4", "CHUNKS", NCH, 4, "reprint", fixed=2), 3000, False))
+        mods.append((xgen.parser_module("c12_spacing_k3", "CHUNKS", NCH, 3, "spacing"), 3000, False))
+        mods.append((xgen.parser_module("c12_entry_k3", "CHUNKS", NCH, 3, "entry", fixed=1, families=FAMILIES), 3000, False))
         mods.append((xgen.corpus_spacing_module("c12_corpus_spacing", 40, step=2, maxgap=40), 3000, False))
         mods.append((xgen.h1_module("c12_h1", 4), 600, True))
     return mods
@@ -144,8 +148,8 @@ def main():
         "by_module": {k: dict(v) for k, v in by_module.items()},
         "crosshair_cpu_s": round(cpu_s, 1),
         "bounds": {
-            "quick": "total: 13 tokens^3 and 9 tokens^4; re-print: 17 chunks^2 and 12 chunks^3; spacing: 17 chunks^2 x 2 flags and 8 chunks^3 x 3 flags; el_op re-print through 8 entry families: 17 chunks^2; arbitrary str <= 3 chars (60 s, bug finding)",
-            "thorough": "total: 17^4 and 12^5; re-print 17^4; spacing 17^3; entry 17^3 x 8; arbitrary str <= 4 chars (600 s)",
+            "quick": "total: 13 tokens^3 and 9 tokens^4; re-print: 19 chunks^2 and 13 chunks^3; spacing: 19 chunks^2 x 2 flags, 8 chunks^3 x 3 flags and 40 corpus descriptions x 2 redundant-gap positions; el_op re-print through 8 entry families: 19 chunks^2; arbitrary str <= 3 chars (60 s, bug finding)",
+            "thorough": "total: 17^4 and 12^5; re-print 19^4; spacing 19^3 and the corpus with all gap pairs; entry 19^3 x 8; arbitrary str <= 4 chars (600 s)",
         }[tier],
         "functions_encoded": ["einx._src.namedtensor.stage1.parse.parse_op", "stage1.tree.*.__str__", "einx_from_namedtensor._parse_op/_to_el_expr/op.inner (up to the solver cut)", "frontend.errors.SyntaxError/SemanticError constructors", "namedtensor.util.ExpressionIndicator"],
     }
